@@ -12,7 +12,6 @@ Lemma k_npd_is_model (T : Type) (O : Ops T) u11 u22 u33 u23 u13 u12 a b c al be 
     (k_ucart_2_0 O u11 u22 u33 u23 u13 u12 a b c al be ga) (k_ucart_2_1 O u11 u22 u33 u23 u13 u12 a b c al be ga) (k_ucart_2_2 O u11 u22 u33 u23 u13 u12 a b c al be ga).
 Proof.
   unfold npd_model, nz, k_npd.
-  destruct (o_eqb O u22 (zero O)) eqn:E2; unfold zero in E2; rewrite E2; cbn [negb orb]; [| reflexivity].
   destruct (o_eqb O u33 (zero O)) eqn:E3; unfold zero in E3; rewrite E3; cbn [negb orb]; [| reflexivity].
   destruct (o_eqb O u23 (zero O)) eqn:E4; unfold zero in E4; rewrite E4; cbn [negb orb]; [| reflexivity].
   destruct (o_eqb O u13 (zero O)) eqn:E5; unfold zero in E5; rewrite E5; cbn [negb orb]; [| reflexivity].
